@@ -221,14 +221,14 @@ def randwalk_part(res, tier, seed):
         if is_connected(4, es):
             conn4.append(es)
     exhaustive4 = tier != "quick"
-    for es in (conn4 if exhaustive4 else rng.sample(conn4, 60)):
+    for es in (conn4 if exhaustive4 else rng.sample(conn4, 150)):
         todo.append((4, es))
     # single hyperedges of every size, stars, chains: the shapes on which the historic solver was singular
     for z in (2, 3, 4, 5):
         todo.append((z, [tuple(range(1, z + 1))]))
     todo.append((5, [(1, 2), (2, 3), (3, 4), (4, 5)]))
     todo.append((5, [(1, 2), (1, 3), (1, 4), (1, 5)]))
-    for _ in range(80 if tier == "quick" else 1500):
+    for _ in range(200 if tier == "quick" else 1500):
         n = rng.choice([5, 6, 7, 8])
         todo.append((n, random_connected(rng, n, 5)))
     cases, logs, descr = [], [], []
@@ -329,7 +329,7 @@ def contagion_part(res, tier, seed):
             for reg in itertools.product("01", repeat=3):
                 plans.append((3, es, (1, 2, 3), I0, 4, tuple(rng.choice(det_vals[c]) for c in reg)))
     # (ii) larger hypergraphs, deterministic regimes and random rates
-    nrand = 350 if tier == "quick" else 7000
+    nrand = 900 if tier == "quick" else 7000
     for i in range(nrand):
         n = rng.choice([2, 3, 4, 4, 5, 5, 6, 6, 7, 7])
         es = set()
